@@ -51,7 +51,11 @@ type RealSpec struct {
 	Arch     string
 	BuildArg bool // history lines carry a build argument
 	Inline   bool // the config descriptor and the layer descriptors carry their content as inline data
+	FlatTimes bool // every time in the config (created, history) is RealBaseTime
 }
+
+// RealBaseTime is the time generated images start from.
+var RealBaseTime = time.Date(2021, 3, 4, 5, 6, 7, 0, time.UTC)
 
 // RealResult is a generated real image with what the oracles need to know about it.
 type RealResult struct {
@@ -95,7 +99,13 @@ func (g *G) RealImageSpec(sp RealSpec) *RealResult {
 	var layers []*RealLayer
 	var diffIDs []string
 	var hist []map[string]any
-	base := time.Date(2021, 3, 4, 5, 6, 7, 0, time.UTC)
+	base := RealBaseTime
+	flat := func(t time.Time) time.Time {
+		if sp.FlatTimes {
+			return RealBaseTime
+		}
+		return t
+	}
 	if sp.Base != nil {
 		layers = append(layers, sp.Base.Layers...)
 		diffIDs = append(diffIDs, sp.Base.DiffIDs...)
@@ -155,11 +165,11 @@ func (g *G) RealImageSpec(sp RealSpec) *RealResult {
 		if sp.BuildArg {
 			by = fmt.Sprintf("|1 SECRET=hunter%d /bin/sh -c build layer%d", i, nBase+i)
 		}
-		hist = append(hist, map[string]any{"created": base.Add(time.Duration(i+1) * time.Hour).Format(time.RFC3339), "created_by": by})
+		hist = append(hist, map[string]any{"created": flat(base.Add(time.Duration(i+1) * time.Hour)).Format(time.RFC3339), "created_by": by})
 		// history entries without a layer (ARG, LABEL, VOLUME ...), none to three in a row after any layer
 		if g.c(2, "emptyhist") == 1 {
 			for k, ne := 0, 1+g.c(3, "nempty"); k < ne; k++ {
-				hist = append(hist, map[string]any{"created": base.Add(time.Duration(i+1)*time.Hour + time.Duration(k+1)*time.Minute).Format(time.RFC3339), "created_by": fmt.Sprintf("LABEL step%d=%d", nBase+i, k), "empty_layer": true})
+				hist = append(hist, map[string]any{"created": flat(base.Add(time.Duration(i+1)*time.Hour + time.Duration(k+1)*time.Minute)).Format(time.RFC3339), "created_by": fmt.Sprintf("LABEL step%d=%d", nBase+i, k), "empty_layer": true})
 			}
 		}
 	}
@@ -168,7 +178,7 @@ func (g *G) RealImageSpec(sp RealSpec) *RealResult {
 	if arch == "" {
 		arch = "amd64"
 	}
-	cfg := map[string]any{"architecture": arch, "os": "linux", "created": base.Add(24 * time.Hour).Format(time.RFC3339),
+	cfg := map[string]any{"architecture": arch, "os": "linux", "created": flat(base.Add(24 * time.Hour)).Format(time.RFC3339),
 		"config": map[string]any{"Env": []string{"PATH=/bin", "KEEP=1"}, "Labels": map[string]string{"org.example.n": fmt.Sprint(g.n), "version": "1.0", "org.opencontainers.image.created": base.Add(12 * time.Hour).Format(time.RFC3339)},
 			"Cmd": []string{"/bin/app"}, "ExposedPorts": map[string]any{"8080/tcp": map[string]any{}}, "Volumes": map[string]any{"/data": map[string]any{}}},
 		"rootfs":  map[string]any{"type": "layers", "diff_ids": diffIDs},
